@@ -333,6 +333,10 @@ fn send_replication(
         mutations.resize_related(related_entities.graphs_count());
     }
 
+    for entity in despawn_buffer.iter() {
+        removal_buffer.remove(*entity);
+    }
+
     collect_mappings(&mut serialized, &mut clients)?;
     collect_despawns(&mut serialized, &mut clients, &mut despawn_buffer)?;
     collect_removals(&mut serialized, &mut clients, &removal_buffer)?;
